@@ -21,9 +21,9 @@ META = {
         'the right-hand side subtracts the basis times inputans masked by the complement of ia; C13.WEIGHTS - normal matrix and '
         'right-hand side are both formed with invvar itself (not a 0/1 mask); C13.YFIT-ALL - the basis and the fitted model are evaluated at every abscissa, masked ones included, and the normal matrix is solved as formed; C13.GRID - TraceSet.xy without xpos builds nx = '
         'int(xmax - xmin + 1) positions in unit steps offset by xmin; C13.BASIS-FRESH - func_fit scales the basis array in place, so '
-        'every basis function returns a freshly allocated array (no memo decorator, no module-level cache). C13.FIT-ONCE - the fit/reject loop of TraceSet.__init__ holds on entry for maxiter = 0 (loop test folded on its initial values); C13.FLOAT-BASIS - the Legendre basis array is floating for every abscissa dtype. C13.FLOAT-OUT - the coefficient, fit and evaluation arrays of a TraceSet are not allocated in the dtype of the pixel positions (func_fit itself asserts that its arrays share the dtype of x, and is left alone); NOT decided: that the '
+        'every basis function returns a freshly allocated array (no memo decorator, no module-level cache). C13.FIT-ONCE - the fit/reject loop of TraceSet.__init__ holds on entry for maxiter = 0 (loop test folded on its initial values); C13.FLOAT-BASIS - the Legendre basis array is floating for every abscissa dtype. C13.FLOAT-OUT - the coefficient, fit and evaluation arrays of a TraceSet are not allocated in the dtype of the pixel positions (func_fit itself asserts that its arrays share the dtype of x, and is left alone); C13.BASIS-EACH - TraceSet.xy recomputes the normalised abscissa and the basis for every trace unconditionally; NOT decided: that the '
         'bases equal the textbook polynomials (delegated to scipy; numerical), least-squares optimality, exact recovery.'),
-    'floors': {'C13.FLOAT-OUT': 2, 'C13.FIT-ONCE': 1, 'C13.FLOAT-BASIS': 1, 'C13.REGISTRY': 3, 'C13.XNORM': 4, 'C13.FIXED-LAST': 3, 'C13.WEIGHTS': 3, 'C13.GRID': 2, 'C13.BASIS-FRESH': 4, 'C13.YFIT-ALL': 3},
+    'floors': {'C13.BASIS-EACH': 1, 'C13.FLOAT-OUT': 2, 'C13.FIT-ONCE': 1, 'C13.FLOAT-BASIS': 1, 'C13.REGISTRY': 3, 'C13.XNORM': 4, 'C13.FIXED-LAST': 3, 'C13.WEIGHTS': 3, 'C13.GRID': 2, 'C13.BASIS-FRESH': 4, 'C13.YFIT-ALL': 3},
 }
 
 TRACE = 'pydl/pydlutils/trace.py'
@@ -294,7 +294,26 @@ def check_fit_once(ctx, repo):
                       % (src(lp.test), env), construct='fit loop skipped for maxiter=0: ' + src(lp.test))
 
 
+def check_basis_each(ctx, repo):
+    """C13.BASIS-EACH: TraceSet.xy evaluates every trace on ITS OWN abscissae: inside the per-trace loop the normalised abscissa and the
+    basis are recomputed unconditionally (a basis kept from the previous trace is only right when the whole row of positions agrees)."""
+    f = repo.func(TRACE, 'TraceSet.xy')
+    fa = FA(f)
+    loops = [n for n in walk_local(f.node) if isinstance(n, ast.For) and any(isinstance(c, ast.Call) and call_name(c) == 'dot' for c in walk_local(n))]
+    ctx.need(len(loops) == 1, 'TraceSet.xy: per-trace loop not found')
+    lp = loops[0]
+    from ..astutil import path_conditions
+    calls = [c for c in walk_local(lp) if isinstance(c, ast.Call) and (call_name(c) == 'xnorm' or (isinstance(c.func, ast.Subscript) and '_func_map' in src(c.func)))]
+    ctx.need(len(calls) >= 1, 'TraceSet.xy: xnorm / basis calls not found in the per-trace loop')
+    for c in calls:
+        conds = [t for t, pol in path_conditions(c) if any(t is x for x in ast.walk(lp))]
+        ctx.check('C13.BASIS-EACH', not conds, f, c, 'every trace gets `%s` from its own positions (unconditionally, once per trace)' % src(c)[:50],
+                  msg='TraceSet.xy computes `%s` only under `%s`: a trace whose positions differ from the previous one in the interior is evaluated with the '
+                      'previous trace\'s basis' % (src(c)[:50], src(conds[0])[:60] if conds else ''), construct='basis reused across traces')
+
+
 def run(ctx):
+    check_basis_each(ctx, ctx.repo)
     from .floatlib import check_float_alloc
     check_float_alloc(ctx, ctx.repo, 'C13.FLOAT-OUT', [(TRACE, 'TraceSet.__init__'), (TRACE, 'TraceSet.xy')],
                       'the coefficients and fitted values of traces given at integer pixel positions are truncated')
